@@ -8,7 +8,10 @@ pool, who holds what) extended by the content of every page and by the one kind 
 
 Events (per page):
   `allocPage`, `reusePage i`  ↔ `newPage` by a buffer: the page gets a writer
-  `write p bs`                ↔ the buffer that has p stores into it: ANY new content (enabled only for the writer)
+  `write p bs`                ↔ the buffer that has p stores into it: ANY new content (enabled only for the writer; WriteAt)
+  `append p bs`               ↔ `Write` / `ReadFrom` / `decoder.writeTo` of that buffer: the page's content grows at its end — the
+                                only kind of store a DECODE buffer performs (readMessage of a v0/v1 set appends the next
+                                message's key and value while references to the earlier ones are already handed out)
   `refTo p`                   ↔ `pageBuffer.ref / refTo`: a pageRef takes a count on p
   `unrefRef p`                ↔ a pageRef releases its count (`Bytes.Close`)
   `unrefBuf p`                ↔ the buffer releases its count (`unref` reaching 0, `Truncate`): p has no writer any more
@@ -30,6 +33,7 @@ inductive HEvent where
   | allocPage
   | reusePage (i : Nat)
   | write (p : Nat) (bs : Bytes)
+  | append (p : Nat) (bs : Bytes)
   | refTo (p : Nat)
   | unrefRef (p : Nat)
   | unrefBuf (p : Nat)
@@ -44,6 +48,7 @@ def HEvent.base : HEvent → Option PEvent
   | .allocPage => some .allocPage
   | .reusePage i => some (.reusePage i)
   | .write _ _ => none
+  | .append _ _ => none
   | .refTo p => some (.ref p)
   | .unrefRef p => some (.unref p)
   | .unrefBuf p => some (.unref p)
@@ -62,6 +67,7 @@ def hstep (s : HState) : HEvent → Option HState
       | none => none
       | some ps' => some ⟨ps', upd s.content p [], upd s.writer p true⟩     -- `p.length = 0`
   | .write p bs => if s.writer p then some { s with content := upd s.content p bs } else none
+  | .append p bs => if s.writer p then some { s with content := upd s.content p (s.content p ++ bs) } else none
   | .refTo p =>
     match step s.ps (.ref p) with
     | none => none
@@ -83,6 +89,12 @@ def hstep (s : HState) : HEvent → Option HState
     match step s.ps (.poolDrop i) with
     | none => none
     | some ps' => some { s with ps := ps' }
+
+/-- no arbitrary overwrite of page `p` in a list of events (appends are allowed) -/
+def noOverwrite (p : Nat) : List HEvent → Bool
+  | [] => true
+  | .write q _ :: es => decide (q ≠ p) && noOverwrite p es
+  | _ :: es => noOverwrite p es
 
 def hrun (s : HState) : List HEvent → Option HState
   | [] => some s
